@@ -27,7 +27,7 @@ pub struct StormCfg {
     /// configure e-mode tags / entries on the banks
     pub emode: bool,
     /// number of Kamino pass-through banks served by the venue stand-in
-    pub n_kamino: usize,
+    pub n_venue: usize,
 }
 
 pub fn pick<T: Copy>(r: &mut R, xs: &[T]) -> T {
@@ -159,18 +159,16 @@ impl Storm {
             bi.expect("bank creation");
             w.create_ata(w.fee_wallet.pubkey(), m).await;
         }
-        for k in 0..cfg.n_kamino {
+        for k in 0..cfg.n_venue {
+            let solend = k % 3 == 1;
             let decimals = pick(&mut r, &[6u8, 6, 9, 8]);
             let m = w.add_mint(decimals, if k % 3 == 2 { TokKind::T22 } else { TokKind::Classic }).await;
-            let mut c = marginfi::state::kamino::KaminoConfigCompact::default();
             let ai: f64 = pick(&mut r, &[0.0, 0.5, 0.8, 0.9, 1.0]);
-            c.asset_weight_init = wi(ai);
-            c.asset_weight_maint = wi((ai + pick(&mut r, &[0.0f64, 0.05, 0.1])).min(1.0).max(ai));
-            c.deposit_limit = if r.gen_bool(0.3) { fund.saturating_mul(pick(&mut r, &[1u64, 3])) } else { u64::MAX };
-            c.total_asset_value_init_limit = if r.gen_bool(0.2) { pick(&mut r, &[1000u64, 1_000_000]) } else { 0 };
-            c.oracle_max_age = pick(&mut r, &[30u16, 60, 600, 65535]);
-            c.oracle_max_confidence = pick(&mut r, &[0u32, u32::MAX / 10, u32::MAX]);
-            c.config_flags = 1;
+            let am: f64 = (ai + pick(&mut r, &[0.0f64, 0.05, 0.1])).min(1.0).max(ai);
+            let deposit_limit = if r.gen_bool(0.3) { fund.saturating_mul(pick(&mut r, &[1u64, 3])) } else { u64::MAX };
+            let init_limit = if r.gen_bool(0.2) { pick(&mut r, &[1000u64, 1_000_000]) } else { 0 };
+            let max_age = pick(&mut r, &[30u16, 60, 600, 65535]);
+            let max_conf = pick(&mut r, &[0u32, u32::MAX / 10, u32::MAX]);
             let usd = pick(&mut r, &[0.01f64, 1.0, 1.0, 25.0, 150.0]);
             let conf_frac = pick(&mut r, &[0.0, 0.001, 0.02]);
             let expo = pick(&mut r, &[-8i32, -6, -5]);
@@ -188,7 +186,28 @@ impl Storm {
                 _ => (r.gen_range(1..(1u64 << 40)), r.gen_range(1..(1u64 << 40))),
             };
             let (liq, col) = if cfg.magnitude == 0 { (liq.min(1 << 30), col.min(1 << 30).max((liq > 0) as u64)) } else { (liq, col) };
-            w.add_bank_kamino(g, m, c, PythPx { price: p, conf: cf, ema: p, ema_conf: cf, expo, publish_time: now, partial: 0 }, liq, col, k as u64).await.expect("kamino bank creation");
+            let px = PythPx { price: p, conf: cf, ema: p, ema_conf: cf, expo, publish_time: now, partial: 0 };
+            if solend {
+                let mut c = marginfi::state::solend::SolendConfigCompact::default();
+                c.asset_weight_init = wi(ai);
+                c.asset_weight_maint = wi(am);
+                c.deposit_limit = deposit_limit;
+                c.total_asset_value_init_limit = init_limit;
+                c.oracle_max_age = max_age;
+                c.oracle_max_confidence = max_conf;
+                // Solend reserves start 1:1 when empty; a seed deposit of 100 collateral exists
+                let (liq, col) = if col == 0 { (100, 100) } else { (liq.max(1), col.max(100)) };
+                w.add_bank_solend(g, m, c, px, liq, col, k as u64).await.expect("solend bank creation");
+            } else {
+                let mut c = marginfi::state::kamino::KaminoConfigCompact::default();
+                c.asset_weight_init = wi(ai);
+                c.asset_weight_maint = wi(am);
+                c.deposit_limit = deposit_limit;
+                c.total_asset_value_init_limit = init_limit;
+                c.oracle_max_age = max_age;
+                c.oracle_max_confidence = max_conf;
+                w.add_bank_kamino(g, m, c, px, liq, col, k as u64).await.expect("kamino bank creation");
+            }
             w.create_ata(w.fee_wallet.pubkey(), m).await;
         }
         if cfg.emode {
@@ -264,8 +283,8 @@ impl Storm {
         let wallet = w.token(&ta);
         let (pos_a, pos_l) = self.position(w, a, b);
         let vault = w.token(&w.banks[b].k.lv);
-        if w.banks[b].kamino.is_some() {
-            let out = self.kamino_step(w, m, roll, a, b).await;
+        if w.banks[b].venue.is_some() {
+            let out = self.venue_step(w, m, roll, a, b).await;
             if out.map(|o| o.ok()).unwrap_or(false) {
                 self.accepted += 1;
             }
@@ -335,24 +354,23 @@ impl Storm {
     /// One step aimed at a Kamino pass-through bank: deposits / withdrawals through the venue,
     /// standard instructions pointed at it (must be refused), venue-side events (yield, slot
     /// progress without refresh, rounding faults).
-    pub async fn kamino_step(&mut self, w: &mut World, m: &mut Mon, roll: u32, a: usize, b: usize) -> Option<crate::chain::TxOut> {
+    pub async fn venue_step(&mut self, w: &mut World, m: &mut Mon, roll: u32, a: usize, b: usize) -> Option<crate::chain::TxOut> {
         use std::sync::atomic::Ordering;
         let auth = w.auth_of(a);
         let ta = w.ta_of(a, b);
         let wallet = w.token(&ta);
         let (pos_a, _) = self.position(w, a, b);
-        let kk = w.banks[b].kamino.unwrap();
         Some(match roll {
             0..=34 => {
                 let base = pick(&mut self.r, &[wallet, wallet / 1000 + 1, 1_000_000, 1000]);
                 let amt = amount_near(&mut self.r, base);
-                let i = w.ix_kamino_deposit(a, b, auth.pubkey(), ta, amt);
+                let i = w.ix_venue_deposit(a, b, auth.pubkey(), ta, amt);
                 w.exec(m, &[i], &[&auth]).await
             }
             35..=59 => {
                 let all = self.r.gen_bool(0.25);
                 let amt = amount_near(&mut self.r, pos_a);
-                let i = w.ix_kamino_withdraw(a, b, auth.pubkey(), ta, amt, if all { Some(true) } else { None });
+                let i = w.ix_venue_withdraw(a, b, auth.pubkey(), ta, amt, if all { Some(true) } else { None });
                 w.exec(m, &[i], &[&auth]).await
             }
             60..=64 => {
@@ -374,31 +392,15 @@ impl Storm {
                 let frac = pick(&mut self.r, &[0.0001f64, 0.001, 0.01, 0.05]);
                 let bits: u128 = self.r.gen_range(0..(1u128 << 60));
                 let whole = self.r.gen_bool(0.5);
-                w.edit_reserve(&kk.reserve, |r| {
-                    let tl = crate::venue::kamino_total_liq_sf(r);
-                    let add: u128 = {
-                        use num_traits::ToPrimitive;
-                        let x = (tl.to_f64().unwrap_or(0.0) * frac) as u128;
-                        if whole { (x >> 60) << 60 } else { x | (bits & 0xFFFF_FFFF) }
-                    };
-                    let cur = u128::from_le_bytes(r.borrowed_amount_sf);
-                    r.borrowed_amount_sf = cur.saturating_add(add).min(u128::MAX >> 8).to_le_bytes();
-                });
+                w.venue_yield(b, frac, bits, whole);
                 return None;
             }
             80..=86 => {
                 // borrowers repay the venue: liquidity becomes available again (real tokens arrive)
-                let r0 = w.reserve(&kk.reserve).unwrap();
-                let borrowed = (u128::from_le_bytes(r0.borrowed_amount_sf) >> 60) as u64;
+                let borrowed = w.venue_borrowed_whole(b);
                 let x = amount_near(&mut self.r, borrowed).min(borrowed);
                 if x > 0 {
-                    let mi = w.banks[b].mint;
-                    w.mint_to(mi, kk.supply, x).await;
-                    w.edit_reserve(&kk.reserve, |r| {
-                        r.available_amount = r.available_amount.saturating_add(x);
-                        let cur = u128::from_le_bytes(r.borrowed_amount_sf);
-                        r.borrowed_amount_sf = cur.saturating_sub((x as u128) << 60).to_le_bytes();
-                    });
+                    w.venue_repaid(b, x).await;
                 }
                 return None;
             }
@@ -412,7 +414,9 @@ impl Storm {
                 return None;
             }
             93..=95 => {
-                crate::venue::KAMINO_FAULT.store(pick(&mut self.r, &[0u64, 0, 1, 2, 3, 4]), Ordering::Relaxed);
+                let f = pick(&mut self.r, &[0u64, 0, 1, 2, 3, 4]);
+                crate::venue::KAMINO_FAULT.store(f, Ordering::Relaxed);
+                crate::venue::SOLEND_FAULT.store(f, Ordering::Relaxed);
                 return None;
             }
             _ => {
@@ -492,7 +496,7 @@ impl Storm {
     pub fn move_price(&mut self, w: &mut World, b: usize) {
         let f = pick(&mut self.r, &[0.5f64, 0.8, 0.95, 1.0, 1.05, 1.25, 2.0, 0.01, 100.0]);
         match w.banks[b].oracle.clone() {
-            OracleD::Pyth(k) | OracleD::Kamino { oracle: k, .. } => {
+            OracleD::Pyth(k) | OracleD::Venue { oracle: k, .. } => {
                 let mut p = w.pyth[&k];
                 p.price = ((p.price as f64 * f) as i64).clamp(1, i64::MAX / 4);
                 p.ema = ((p.ema as f64 * (1.0 + (f - 1.0) * 0.5)) as i64).clamp(1, i64::MAX / 4);
